@@ -27,6 +27,8 @@ TraceC07 ==
        /\ \A s, t \in 0..(Pow2(M) - 1) : (s # t /\ blk[s + 1] = blk[t + 1]) => e.inner[s + 1] # e.inner[t + 1]
        /\ \A b \in 0..(NBlocks(blk) - 1) : e.sizes[b + 1] = Cardinality(StatesOf(blk, b))
        /\ HBlockDiagonal(H, blk)
+       /\ e.cross = <<>>      \* the library's own operator expression of H (which may carry terms too small for this specification's
+                              \* rational arithmetic, scenario field "tiny") has no element between different recorded blocks either
        /\ \A op \in FieldOps(M) : SingleTarget(op, blk) /\ BimapFaithful(op, blk, RecBimap(e, op))
        /\ ndesign' = ndesign + (IF \A op \in FieldOps(M) : RecBimap(e, op) = Bimap(op, blk) THEN 1 ELSE 0)
 TraceInit == l = 1 /\ ndesign = 0
